@@ -41,6 +41,7 @@ class Ob(object):
         self.timeout = kw.pop('timeout', {'quick': 240, 'thorough': 1800})
         self.repo_tus = kw.pop('repo_tus', [])
         self.remove_bodies = kw.pop('remove_bodies', [])
+        self.separate_tus = kw.pop('separate_tus', [])
         self.desc = kw.pop('desc', '')
         self.bounds = kw.pop('bounds', '')
         self.assumptions = kw.pop('assumptions', [])
@@ -183,6 +184,8 @@ def nondet_values(trace):
         m = re.match(r'return_value_nondet_(\w+?)(\$\d+)?$', lhs) or re.match(r'nd_log_(\w+)$', lhs)
         if not m:
             continue
+        if m.group(1).startswith('irm_'):
+            continue   # values of the libm envelope stubs: natively libm itself is used
         v = s.get('value', {})
         b = v.get('binary')
         if b is None:
@@ -217,11 +220,29 @@ class Runner(object):
         cmd = ['goto-cc', '-DVERIF_CBMC', '-std=' + (ob.std or 'gnu90')] + REAL_DEFS + REPO_INCS + ['-I' + HARN] + defs
         srcs = [os.path.join(HARN, ob.src)] + [os.path.join(REPO, t) for t in ob.repo_tus] + \
                [os.path.join(HARN, e) for e in ob.extra_srcs]
+        # repo units compiled on their own with their static functions exported, so that a leaf can be
+        # cut out (goto-instrument --remove-function-body) and replaced by an obligation stub of the harness
+        for i, tu in enumerate(ob.separate_tus):
+            part = os.path.join(wdir, 'tu%d%s.gb' % (i, 'w' if witness else ''))
+            c1 = ['goto-cc', '-DVERIF_CBMC', '-std=' + (ob.std or 'gnu90')] + REAL_DEFS + REPO_INCS + defs + \
+                 ['-c', '--export-file-local-symbols', os.path.join(REPO, tu), '-o', part]
+            rc, o, e, w, rss, to = sh(c1, timeout=300)
+            if rc != 0:
+                return None, 'goto-cc failed on %s: %s' % (tu, (e or o)[-1200:])
+            if ob.remove_bodies:
+                c2 = ['goto-instrument']
+                for f in ob.remove_bodies:
+                    c2 += ['--remove-function-body', f]
+                c2 += [part, part]
+                rc, o, e, w, rss, to = sh(c2, timeout=300)
+                if rc != 0:
+                    return None, 'goto-instrument failed: ' + (e or o)[-1200:]
+            srcs.append(part)
         cmd += srcs + ['-o', out]
         rc, o, e, w, rss, to = sh(cmd, timeout=300)
         if rc != 0:
             return None, 'goto-cc failed: ' + (e or o)[-1500:]
-        if ob.remove_bodies:
+        if ob.remove_bodies and not ob.separate_tus:
             cmd2 = ['goto-instrument']
             for f in ob.remove_bodies:
                 cmd2 += ['--remove-function-body', f]
@@ -251,6 +272,9 @@ class Runner(object):
         if ob.engine == 'ir':
             # -O1 IR forms out-of-object pointers speculatively (select of &a[i-1]); the check is meaningless there
             cmd = [c for c in cmd if c != '--pointer-overflow-check']
+            if '--max-field-sensitivity-array-size' not in cmd:
+                # the 128-entry instrument array of a bank must stay field-sensitive (constant propagation)
+                cmd += ['--max-field-sensitivity-array-size', '130']
         if witness:
             cmd = [c for c in cmd if c not in ('--unwinding-assertions', '--pointer-overflow-check')]
             cmd += ['--no-standard-checks', '--no-unwinding-assertions', '--no-built-in-assertions']
@@ -480,6 +504,9 @@ class Runner(object):
         cmd += [os.path.join(HARN, ob.src)] + [os.path.join(REPO, t) for t in ob.repo_tus] + \
                [os.path.join(HARN, e) for e in ob.extra_srcs] + \
                [os.path.join(HARN, 'native_rt.c'), '-DVERIF_ENTRY=' + ob.entry, '-o', exe, '-lm']
+        if ob.separate_tus:
+            return False, 'harness with cut-out leaf functions has no native build (the stubs replace static functions)'
+
         rc, o, e, w, rss, to = sh(cmd, timeout=300)
         return rc == 0, (e or o)
 
